@@ -90,7 +90,7 @@ Theorem C04_scale_in_unit : forall lo hi a, (lo < hi -> lo <= a <= hi -> -1 <= s
 Proof. exact scale_in_unit. Qed.
 Print Assumptions C04_scale_in_unit.
 
-Theorem C04_buffer_action_in_unit_noise : forall lo hi u nz,
+Theorem C04_buffer_action_in_unit_noise : forall lo hi u nz, Forall2 Qlt lo hi ->
   Forall in_unit (buffer_action (ABox lo hi) (mkO u (Some nz))).
 Proof. exact buffer_action_in_unit_noise. Qed.
 Print Assumptions C04_buffer_action_in_unit_noise.
@@ -124,6 +124,11 @@ Theorem C04_fragment_terminal_guard : forall o,
   stored_next o = if off_use_terminal (vo_done o) (has_term o) then match vo_term o with Some t => t | None => vo_obs o end else vo_obs o.
 Proof. exact frag_use_terminal. Qed.
 Print Assumptions C04_fragment_terminal_guard.
+
+(* warm-up phase (which sampler provides the oracle action): num_timesteps < learning_starts and not (use_sde and use_sde_at_warmup) *)
+Theorem C04_fragment_warmup : forall nt ls sde sdew, off_warmup nt ls sde sdew = ((nt <? ls) && negb (sde && sdew))%bool.
+Proof. exact frag_off_warmup. Qed.
+Print Assumptions C04_fragment_warmup.
 
 Theorem C04_fragments_loops : forall nt ne steps eps total f,
   off_count nt ne steps = (nt + ne, steps + 1) /\ off_episode_inc eps = eps + 1 /\
